@@ -357,3 +357,10 @@ Theorem C20_related_symmetric_reachable : forall (pool : list intr) ops a b la l
   (In b la <-> In a lb).
 Proof. exact related_symmetric_reachable. Qed.
 Print Assumptions C20_related_symmetric_reachable.
+
+(* ---- the keys of the relation table are pairwise distinct in every reachable state (no hypothesis on the objects) *)
+Require Import Verif.Proofs.C20_keys.
+
+Theorem C20_reachable_refs_keys_distinct : forall ops, NoDup (map fst (refs (run_state init ops))).
+Proof. exact reachable_refs_keys_distinct. Qed.
+Print Assumptions C20_reachable_refs_keys_distinct.
